@@ -288,6 +288,33 @@ def validate_trace(tracefile, workdir, tag):
     return viol, hits, end
 
 
+def validate_impl(tracefile, workdir, tag):
+    """L2 conformance: compare every recorded call of a modelled routine with the line predicted by spec/SVecImpl.tla.
+    Returns (calls compared, [drift records])."""
+    md = os.path.join(workdir, 'md_' + tag)
+    rc, out = java_tlc(['-workers', '1', '-metadir', md, '-config', os.path.join(SPEC, 'Trace.cfg'),
+                        os.path.join(SPEC, 'ImplTrace.tla')], env={'TRACE': tracefile}, timeout=3600, xmx='6g')
+    shutil.rmtree(md, ignore_errors=True)
+    calls, drift, end = 0, [], None
+    for v in tlaparse.values(out):
+        if not v:
+            continue
+        if v[0] == 'H':
+            calls += 1
+        elif v[0] == 'D':
+            drift.append(dict(line=v[1], op=v[2], what=sorted(v[3])))
+        elif v[0] == 'END':
+            end = v[1]
+    if 'Model checking completed. No error has been found.' not in out or end is None:
+        open(os.path.join(workdir, 'tlc_%s.out' % tag), 'w').write(out)
+        raise RuntimeError('TLC L2 conformance failed (%s): see %s\n%s' % (tracefile, workdir, out[-3000:]))
+    if drift:
+        lines = open(tracefile).read().split('\n')
+        for d in drift[:20]:
+            d['recorded'] = lines[d['line'] - 1][:700]
+    return calls, drift
+
+
 def shape(st):
     def one(x):
         if not x.get('p'):
